@@ -1,5 +1,6 @@
 '''C02 Index: unique labels, exact label-to-position bijection.'''
 from sfa.report import Ctx
+from sfa.rules import flowmisc
 from sfa.rules import atomic
 from sfa.rules import indexrules
 from sfa.rules import own
@@ -10,7 +11,7 @@ LEVEL_TEXT = (
     'Index._labels/_positions, IndexHierarchy._blocks and ArrayGO._array anywhere in core is dominated by the staleness guard '
     '(forward must-dataflow over every path of every function, with ensures-fresh summaries and interprocedural '
     'requires-fresh propagation for private readers). A read without the guard serves the pre-growth arrays after an '
-    'append, which breaks the label<->position bijection for that method on a grown index. Views: every view method of Index / IndexHierarchy (__len__, values, positions, __iter__, __reversed__, depth, shape, __contains__) presents the one backing label sequence (tree while stale, table when fresh). Key-steered descent: an IndexLevelGO mutator that steps into a fixed child (targets[-1]) checks that the matched key component sits at that position and raises otherwise, before mutating. Key walkers: IndexLevel membership and leaf lookup agree that a key is accepted at a leaf only when it is exhausted (no over-long tuple is a member). Sibling offsets: every loop that places IndexLevel nodes under a parent gives each the running length of its preceding siblings as offset, and level_drop recomputes lengths and offsets after cutting leaves. Not decided: correctness '
+    'append, which breaks the label<->position bijection for that method on a grown index. Views: every view method of Index / IndexHierarchy (__len__, values, positions, __iter__, __reversed__, depth, shape, __contains__) presents the one backing label sequence (tree while stale, table when fresh). Key-steered descent: an IndexLevelGO mutator that steps into a fixed child (targets[-1]) checks that the matched key component sits at that position and raises otherwise, before mutating. Key walkers: IndexLevel membership and leaf lookup agree that a key is accepted at a leaf only when it is exhausted (no over-long tuple is a member). Sibling offsets: every loop that places IndexLevel nodes under a parent gives each the running length of its preceding siblings as offset, and level_drop recomputes lengths and offsets after cutting leaves. Reverse option: every path of TypeBlocks.axis_values that yields has consulted `reverse` (reversed() of a hierarchy, reverse column iteration of a Frame). Not decided: correctness '
     'of the AutoMap hash map, NaN/float label equality, offset arithmetic of IndexLevel.leaf_loc_to_iloc.')
 
 CLAIM = dict(
@@ -32,3 +33,4 @@ def run(ctx: Ctx) -> None:
     indexrules.descent_follows_key(ctx)
     indexrules.leaf_exit_key_exhausted(ctx)
     indexrules.sibling_offsets_running(ctx)
+    flowmisc.option_consulted(ctx)
